@@ -32,10 +32,16 @@ def ev_tuple(ev):
     return (ev[0], int(ev[1]), float(ev[2]), float(ev[3]), float(ev[4]), float(ev[5]))
 
 
-def make_catalog(events, region=None, catalog_id=None, name=None, **kw):
+def make_catalog(events, region=None, catalog_id=None, name=None, as_array=False, **kw):
+    """as_array: hand the events over as a structured ndarray (the other accepted input type) instead of a list"""
     from csep.core.catalogs import CSEPCatalog
-    return CSEPCatalog(data=[ev_tuple(e) for e in events], region=region, catalog_id=catalog_id,
-                       name=name, **kw)
+    data = [ev_tuple(e) for e in events]
+    if as_array:
+        arr = numpy.empty(len(data), dtype=CSEPCatalog.dtype)
+        for i, t in enumerate(data):
+            arr[i] = t
+        data = arr
+    return CSEPCatalog(data=data, region=region, catalog_id=catalog_id, name=name, **kw)
 
 
 def cat_rows(cat):
